@@ -61,7 +61,7 @@ impl Monitor for C02 {
         }
     }
     fn rule(&self) -> &'static str {
-        "cases as in C01 (W5 bombs over every looping construct x extreme/zero/negative/base-1/non-finite arguments, exhaustive short token sequences, random trees, mutations); each call is armed with a step budget of exactly 4096+256*len through the verif_hooks counter and is a violation when the counter passes it; a worker-side CPU-time watchdog (60 CPU-seconds for one call) catches loops that carry no counter; non-trivial = returned Ok, or returned Err after at least 8 counted steps and more steps than input characters; distinct = distinct (evaluator, input, placeholder)"
+        "cases as in C01 (W5 bombs over every looping construct x extreme/zero/negative/base-1/non-finite arguments, exhaustive short token sequences, random trees, mutations); each call is armed with a step budget of exactly 4096+256*len through the verif_hooks counter and is a violation when the counter passes it; loops that carry no counter are bounded by two backstops: every magnitude bomb, every construct repeated up to 64/128/256 characters and large random trees run under cachegrind (`sanitizers` entry of this file) and a call executing more than 10^7 + 10^6*chars instructions is a violation (deterministic, no clock), and a worker-side CPU-time watchdog (60 CPU-seconds for one call) catches what is slower still; non-trivial = returned Ok, or returned Err after at least 8 counted steps and more steps than input characters; distinct = distinct (evaluator, input, placeholder)"
     }
     fn assumptions(&self) -> Vec<&'static str> {
         vec![
